@@ -147,6 +147,16 @@ def writeMirror (t : Tok) (off val : Nat) : GM Unit := fun s =>
       else (.error .ub, s)
   | _, _ => (.error .ub, s)
 
+/-- `ptr::read(p.sub(back).cast::<usize>())`: legal only as the read of the word right in front of the elements
+    (`p` must be the data pointer of the installed block, `back` one word); every installed block had it
+    written with its alignment (`writeMirror`, `setBuf`) and nothing else ever writes it -/
+def readMirror (p : DPtr) (back : Nat) : GM Nat := fun s =>
+  match p with
+  | .at o =>
+      if s.isDefault = false ∧ back = wordSize ∧ o = alignUp hdrSize s.align then (.ok s.align, s)
+      else (.error .ub, s)
+  | .null => (.error .ub, s)
+
 /-- `self.buf = NonNull::new_unchecked(new_buf)`. A block whose word in front of the elements was not
     written is never installed in the model: `from_raw_part(s)` would read an uninitialised word. -/
 def setBuf (t : Tok) : GM Unit := fun s =>
